@@ -180,13 +180,42 @@ def _cmp(op, a, b):
     return UNK
 
 
-_COPIES = ("list", "tuple", "sorted")      # builtins that return a sequence with as many elements as their argument
+_COPIES = ("list", "tuple", "sorted", "copy", "deepcopy")        # f(x): a sequence with as many elements as x, in x's order or sorted
+_ARRAY_COPIES = ("asarray", "array", "asanyarray")                # np.asarray(x): one entry per element of a flat sequence
+_COPY_METHODS = ("copy", "tolist")                                # x.copy(), arr.tolist()
+
+
+def _copy_source(e: ast.AST) -> Optional[ast.AST]:
+    """`x` when `e` is an order-keeping / sorting copy of the sequence `x` with the same number of elements: list(x), tuple(x),
+    sorted(x), copy(x), x[:], x[::-1], x.copy(), np.asarray(x), arr.tolist().  None otherwise."""
+    if isinstance(e, ast.Call):
+        fn = e.func
+        kws = {k.arg for k in e.keywords}
+        if isinstance(fn, ast.Name) and fn.id in _COPIES and len(e.args) == 1 and kws <= {"key", "reverse"}:
+            return e.args[0]
+        if isinstance(fn, (ast.Name, ast.Attribute)) and (fn.id if isinstance(fn, ast.Name) else fn.attr) in _ARRAY_COPIES \
+                and len(e.args) == 1 and kws <= {"dtype", "copy", "order"}:
+            return e.args[0]
+        if isinstance(fn, ast.Attribute) and fn.attr in ("copy", "deepcopy") and isinstance(fn.value, ast.Name) and fn.value.id == "copy" \
+                and len(e.args) == 1 and not kws:
+            return e.args[0]                                    # copy.copy(x) / copy.deepcopy(x)
+        if isinstance(fn, ast.Attribute) and fn.attr in _COPY_METHODS and not e.args and not kws:
+            return fn.value
+        return None
+    if isinstance(e, ast.Subscript) and isinstance(e.slice, ast.Slice) and e.slice.lower is None and e.slice.upper is None:
+        st = e.slice.step
+        if st is None or (isinstance(st, ast.Constant) and st.value == 1) \
+                or (isinstance(st, ast.UnaryOp) and isinstance(st.op, ast.USub) and isinstance(st.operand, ast.Constant) and st.operand.value == 1):
+            return e.value
+    return None
 
 
 def _through_copies(e: ast.AST) -> ast.AST:
-    while isinstance(e, ast.Call) and isinstance(e.func, ast.Name) and e.func.id in _COPIES and len(e.args) == 1 and not e.keywords:
-        e = e.args[0]
-    return e
+    while True:
+        inner = _copy_source(e)
+        if inner is None:
+            return e
+        e = inner
 
 
 def ev(e: ast.AST, env: dict):
@@ -221,13 +250,13 @@ def ev(e: ast.AST, env: dict):
         if any(t is True for t in ts):
             return True
         return False if all(t is False for t in ts) else UNK
-    if isinstance(e, ast.Call) and isinstance(e.func, ast.Name) and e.func.id in _COPIES and len(e.args) == 1 \
-            and not any(k.arg != "key" and k.arg != "reverse" for k in e.keywords):
-        v = ev(e.args[0], env)          # a copy has the length of the original
+    inner = _copy_source(e)
+    if inner is not None:
+        v = ev(inner, env)              # a copy has the length of the original
         if isinstance(v, Len):
             return v
-        if isinstance(v, (list, tuple)):
-            return list(v) if e.func.id != "tuple" else tuple(v)
+        if isinstance(v, (list, tuple)) and isinstance(e, ast.Call) and isinstance(e.func, ast.Name) and e.func.id in ("list", "tuple"):
+            return list(v) if e.func.id == "list" else tuple(v)
         return UNK
     if isinstance(e, ast.Call) and isinstance(e.func, ast.Name) and e.func.id == "len" and len(e.args) == 1 and not e.keywords:
         v = ev(e.args[0], env)
